@@ -766,7 +766,21 @@ func (m *mappedFile) newCounter(name string) (v *atomic.Uint64, m1 *mappedFile, 
 		for off := head; off != old; {
 			ename, enext, v, ok := m.entryAt(off)
 			if !ok {
-				return nil, nil, errCorrupt
+				// The chain now reaches a record outside our mapping: the
+				// process that won the race extended the file. Give up our
+				// record and start over; the lookup remaps.
+				next.Store(^uint32(0)) // mark ours as dead
+				v, m2, err := m.newCounter(name)
+				if err != nil {
+					return nil, nil, err
+				}
+				if m2 != nil {
+					if m != orig {
+						m.close()
+					}
+					m = m2
+				}
+				return v, nil, nil
 			}
 			if string(ename) == name {
 				next.Store(^uint32(0)) // mark ours as dead
